@@ -36,8 +36,17 @@ var predefinedVars = []efivar.Efivar{
 func genVar(rng *rand.Rand) (efivar.Efivar, string) {
 	if rng.Intn(2) == 0 {
 		v := predefinedVars[rng.Intn(len(predefinedVars))]
-		if rng.Intn(4) == 0 {
+		switch rng.Intn(8) {
+		case 0, 1:
 			v.Attributes |= attributes.EFI_VARIABLE_APPEND_WRITE
+		case 2:
+			// a caller's own definition of a well-known variable: its own GUID object and no
+			// attributes (nothing required on read, the mask written is the caller's: zero)
+			g := *v.GUID
+			return efivar.Efivar{Name: v.Name, GUID: &g}, "predefined-name-own-mask"
+		case 3:
+			g := *v.GUID
+			return efivar.Efivar{Name: v.Name, GUID: &g, Attributes: attributes.Attributes(1 << uint(rng.Intn(3)))}, "predefined-name-own-mask"
 		}
 		return v, "predefined"
 	}
@@ -186,7 +195,7 @@ func checkC11(r *mon.Run) {
 	r.Rule = "Oracle A: recording afero.Fs around MemMapFs installed through FSWrapper.SetFS (object API) and fs.SetFS (legacy API); every predefined efivar definition + arbitrary (name, GUID incl. leading-zero fields, mask) triples; values empty/boolean/string/database/signed update/raw; stored masks equal, superset, each single-bit subset, disjoint; files absent, 0..3 bytes, exactly 4 bytes; several efivars directories. Trace spec for a write: OpenFile(<dir>/<Name>-<lower-case GUID>, O_WRONLY|O_CREATE[|O_APPEND iff APPEND_WRITE]) · one Write(attrs_le32‖value) · Close, nothing else. Reads: value = bytes after the first four, stored mask returned, wrong-attributes error without decoding when a required attribute is missing, errors for absent/short files. Oracle B: the same writes through the OS filesystem in a child under strace; offline check of the syscall log. distinct = (API, variable kind, mask relation, value kind, file state)"
 	r.Assume("observation point is the afero.Fs boundary (A) and the syscall boundary (B); the legacy writer's read-only immutable-flag probe of the same path is permitted (not a write)")
 	nops := r.N(5000, 200000)
-	dirs := []string{efivarsDir, "/sys/firmware/efi/efivars-verif-fake", "/x"}
+	dirs := []string{efivarsDir, "/sys/firmware/efi/efivars-verif-fake", "/x", "verif-relative/efivars", "e"}
 	// sequential: the legacy API and attributes.Efivars are process-global
 	shared := efivarfs.NewFS() // one long-lived object used across directory changes
 	for i := 0; i < nops; i++ {
